@@ -10,6 +10,10 @@
 //   b              beginResize()
 //   a G L A P      add(G, ParallelLocalIndex(L, A, P))             A in 0..3, P in 0/1
 //   ag G           add(G)                                          (default constructed local index)
+//   aa G A P       add(G, ParallelLocalIndex(A, P))                (two-argument constructor: local number 0; not for NL)
+//   c              snapshot = Set(set)      copy construction of a second object (replaces an earlier snapshot)
+//   y              set = snapshot           copy assignment (`skip` without snapshot)
+//   v              the snapshot as it is now: seqNo:state:[pairs]:eq|ne   (`eq` = snapshot == set via operator==; `skip` without)
 //   d G A          markAsDeleted(iterator to the first entry with global G and attribute A); `none` if there is none
 //   e              endResize()
 //   r              renumberLocal()
@@ -36,6 +40,7 @@
 #include <dune/common/parallel/plocalindex.hh>
 #include <map>
 #include <memory>
+#include <optional>
 #include <set>
 #include <unistd.h>
 
@@ -72,12 +77,14 @@ template <class TL> struct LT;
 template <> struct LT<PLI> {
   static constexpr bool hasAttr = true;
   static PLI make(unsigned long l, int a, bool p) { return PLI((size_t)l, (Flag)a, p); }
+  static PLI make2(int a, bool p) { return PLI((Flag)a, p); }
   static int attr(const PLI& x) { return (int)x.attribute(); }
   static bool pub(const PLI& x) { return x.isPublic(); }
 };
 template <> struct LT<Dune::LocalIndex> {
   static constexpr bool hasAttr = false;
   static Dune::LocalIndex make(unsigned long l, int, bool) { return Dune::LocalIndex((std::size_t)l); }
+  static Dune::LocalIndex make2(int, bool) { return Dune::LocalIndex(); }
   static int attr(const Dune::LocalIndex&) { return 0; }
   static bool pub(const Dune::LocalIndex&) { return false; }
 };
@@ -89,6 +96,14 @@ struct Table {  // what one GlobalLookupIndexSet shows
   std::vector<Ent> cell;       // *pair(i) where set
   std::vector<Ent> forward;    // lookup[pair(i)->global()] where set (the table's own operator[])
   std::vector<Ent> iter;       // begin()..end() of the table
+};
+
+struct SnapView {  // what the second object shows
+  int seqNo = 0;
+  bool resize = false;
+  std::size_t size = 0;
+  std::vector<Ent> iter;
+  bool eq = false, ne = false, eqRev = false;  // snapshot == set, snapshot != set, set == snapshot
 };
 
 // ---- type-erased view of one instantiation ------------------------------------------------------------------
@@ -117,6 +132,11 @@ struct SetApi {
   virtual std::vector<Ent> iterC() const = 0;
   virtual std::vector<Ent> iterM() = 0;
   virtual Table lookup(bool sized, std::size_t m) const = 0;
+  virtual void addAttrOnly(long g, int a, bool p) = 0;   // add(g, TL(attribute, isPublic))
+  virtual void snapshot() = 0;                            // copy construction
+  virtual bool hasSnap() const = 0;
+  virtual void restore() = 0;                             // copy assignment
+  virtual SnapView snapView() const = 0;
 };
 
 template <class TG, class TL, int N>
@@ -124,8 +144,30 @@ struct SetImpl : SetApi {
   typedef Dune::ParallelIndexSet<TG, TL, N> Set;
   typedef Dune::GlobalLookupIndexSet<Set> Lookup;
   Set set;
+  std::unique_ptr<Set> snap;
   typename Set::iterator cursor;
   SetImpl() : cursor(set.begin()) {}
+
+  void addAttrOnly(long g, int a, bool p) override { set.add((TG)g, LT<TL>::make2(a, p)); }
+  void snapshot() override { snap.reset(new Set(set)); }
+  bool hasSnap() const override { return (bool)snap; }
+  void restore() override {
+    set = *snap;
+    cursor = set.begin();  // iterators into the overwritten lists are gone
+  }
+  SnapView snapView() const override {
+    SnapView v;
+    Set& sn = *snap;  // state() is a non-const member
+    v.seqNo = sn.seqNo();
+    v.resize = sn.state() == Dune::RESIZE;
+    v.size = sn.size();
+    const Set& csn = sn;
+    for (auto it = csn.begin(); it != csn.end(); ++it) v.iter.push_back(entOf(*it));
+    v.eq = csn == set;
+    v.ne = csn != set;
+    v.eqRev = set == csn;
+    return v;
+  }
 
   template <class P>
   static Ent entOf(const P& p) {
@@ -192,6 +234,12 @@ struct Oracle {
   long seq = 0;
   bool outside = false;  // the history left the property's quantifier (two live entries with equal global AND attribute)
   std::string fail;
+  // the second object, as it was when it was copied
+  bool hasSnap = false;
+  std::multimap<Key, Ent> snapCur;
+  std::vector<Ent> snapAdded;
+  bool snapResize = false;
+  long snapSeq = 0;
 
   void bad(const std::string& m) {
     if (fail.empty()) fail = m;
@@ -304,11 +352,61 @@ struct Runner {
       if (threw) stat("err_InvalidState");
       return threw ? "ERR:InvalidState" : "ok";
     }
-    if ((op == "a" && w.size() == 5) || (op == "ag" && w.size() == 2)) {
+    if (op == "c" && w.size() == 1) {
+      set.snapshot();
+      o.hasSnap = true;
+      o.snapCur = o.cur;
+      o.snapAdded = o.added;
+      o.snapResize = o.resize;
+      o.snapSeq = o.seq;
+      stat(o.resize ? "snapshot_in_resize" : "snapshot_in_ground");
+      return "ok";
+    }
+    if (op == "y" && w.size() == 1) {
+      if (!o.hasSnap) return "skip";
+      set.restore();
+      o.cur = o.snapCur;
+      o.added = o.snapAdded;
+      o.resize = o.snapResize;
+      o.seq = o.snapSeq;
+      stat(o.resize ? "restore_to_resize" : "restore_to_ground");
+      return "ok";
+    }
+    if (op == "v" && w.size() == 1) {
+      if (!o.hasSnap) return "skip";
+      SnapView v = cset.snapView();
+      std::vector<Ent> want;
+      for (auto& kv : o.snapCur) want.push_back(kv.second);
+      std::vector<Ent> gs = v.iter, ws = want;
+      std::sort(gs.begin(), gs.end());
+      std::sort(ws.begin(), ws.end());
+      if (!(gs == ws)) fail("the copy changed: it holds " + entsStr(v.iter) + " but was copied from " + entsStr(want));
+      for (size_t i = 1; i < v.iter.size(); ++i)
+        if (std::make_pair(v.iter[i].g, v.iter[i].a) < std::make_pair(v.iter[i - 1].g, v.iter[i - 1].a)) fail("the copy is not ascending: " + entsStr(v.iter));
+      if (v.size != want.size()) fail("the copy's size() = " + std::to_string(v.size));
+      if (v.seqNo != o.snapSeq) fail("the copy's seqNo() = " + std::to_string(v.seqNo) + " expected " + std::to_string(o.snapSeq));
+      if (v.resize != o.snapResize) fail("the copy's state() is wrong");
+      // operator== compares sizes, global indices and local indices (number, attribute, public flag) position by position
+      auto keyOf = [](const Ent& e) { return std::make_tuple(e.g, e.l, e.a, e.pub); };
+      std::vector<Ent> now = o.all();
+      bool wantEq = want.size() == now.size();
+      for (size_t i = 0; wantEq && i < want.size(); ++i) wantEq = keyOf(want[i]) == keyOf(now[i]);
+      if (v.eq != wantEq) fail(std::string("snapshot == set gives ") + (v.eq ? "true" : "false"));
+      if (v.ne == v.eq) fail("operator!= is not the negation of operator==");
+      if (v.eqRev != v.eq) fail("operator== is not symmetric");
+      stat(v.eq ? "view_equal" : "view_different");
+      return std::to_string(v.seqNo) + ":" + (v.resize ? "R" : "G") + ":" + entsStr(v.iter) + ":" + (v.eq ? "eq" : "ne");
+    }
+    if ((op == "a" && w.size() == 5) || (op == "ag" && w.size() == 2) || (op == "aa" && w.size() == 4)) {
       long g = L(1);
       if (!numbersOk || !set.globalFits(g)) return "bad-op";
       Ent e{g, 0, 0, false, true};
       bool threw = false;
+      if (op == "aa") {
+        long a = L(2), p = L(3);
+        if (!numbersOk || a < 0 || a > 3 || p < 0 || p > 1 || !set.hasAttr()) return "bad-op";
+        e = Ent{g, 0, (int)a, p != 0, true};
+      }
       if (op == "a") {
         long l = L(2), a = L(3), p = L(4);
         if (!numbersOk || l < 0 || a < 0 || a > 3 || p < 0 || p > 1) return "bad-op";
@@ -318,6 +416,7 @@ struct Runner {
       if (g <= -(1L << 40) || g >= (1L << 40)) stat("global_extreme");
       try {
         if (op == "a") set.add(g, e.l, e.a, e.pub);
+        else if (op == "aa") set.addAttrOnly(g, e.a, e.pub);
         else set.add(g);
       } catch (Dune::InvalidIndexSetState&) { threw = true; }
       if (!o.resize) {
@@ -645,6 +744,15 @@ static std::string randomHistory(Rng& r, bool big) {
       }
     }
   };
+  std::optional<Shadow> shSnap;  // what the generator believes the second object (the copy) holds
+  auto finishPhase = [&]() {
+    emit("e");
+    sh.resize = false;
+    for (auto it = sh.live.begin(); it != sh.live.end();)
+      if (it->second) it = sh.live.erase(it); else ++it;
+    for (auto& k : sh.fresh) sh.live[k] = false;
+    sh.fresh.clear();
+  };
   for (int round = 0; round < rounds; ++round) {
     if (wrongState && r.coin(1, 4)) emit(r.coin() ? "e" : r.coin() ? "a " + std::to_string(G()) + (plain ? " 1 0 0" : " 1 0 1") : "ag " + std::to_string(G()));
     if (wrongState && r.coin(1, 4) && !sh.live.empty()) {
@@ -655,6 +763,7 @@ static std::string randomHistory(Rng& r, bool big) {
     emit("b");
     sh.resize = true;
     sh.fresh.clear();
+    if (r.coin(1, 25)) { emit("c"); shSnap = sh; }  // a copy of a set in RESIZE state, nothing pending yet
     // plan of this phase
     long nAdd;
     switch (r.below(6)) {
@@ -690,6 +799,7 @@ static std::string randomHistory(Rng& r, bool big) {
         if (globalTaken) stat("gen_equal_global_added");
         sh.fresh.insert({g, a});
         if (a == 0 && r.coin(1, 8)) { acts.push_back("ag " + std::to_string(g)); }
+        else if (!plain && r.coin(1, 10)) acts.push_back("aa " + std::to_string(g) + " " + std::to_string(a) + " " + std::to_string(r.below(2)));
         else acts.push_back("a " + std::to_string(g) + " " + std::to_string(r.coin(1, 12) ? r.range(20, 45) : r.below(10)) + " " + std::to_string(a) + " " + std::to_string(plain ? 0 : r.below(2)));
         break;
       }
@@ -704,15 +814,26 @@ static std::string randomHistory(Rng& r, bool big) {
       if (r.coin(1, 40)) emit("L");  // reverse table while entries are marked DELETED
     }
     if (r.coin(1, 10)) emit("p");
-    emit("e");
-    sh.resize = false;
-    for (auto it = sh.live.begin(); it != sh.live.end();)
-      if (it->second) it = sh.live.erase(it); else ++it;
-    for (auto& k : sh.fresh) sh.live[k] = false;
-    sh.fresh.clear();
+    if (r.coin(1, 20)) { emit("c"); shSnap = sh; }  // a copy with pending additions and deletion marks
+    if (shSnap && shSnap->resize && r.coin(1, 4)) {  // assign an earlier RESIZE-state copy back, then close ITS phase
+      emit("y");
+      sh = *shSnap;
+      if (r.coin()) emit("v");
+    }
+    finishPhase();
     // ground-state observations
     if (r.coin(1, 3)) emit("r");
     lookups(big ? 6 : (int)r.range(1, 6));
+    if (r.coin(1, 8)) { emit("c"); shSnap = sh; }
+    if (shSnap && r.coin(1, 3)) emit("v");
+    if (shSnap && r.coin(1, 5)) {
+      emit("y");
+      sh = *shSnap;
+      if (sh.resize) { lookups(1); if (r.coin(1, 3)) emit("L"); finishPhase(); }
+      lookups(2);
+      if (r.coin()) emit("v");
+      if (r.coin(1, 3)) emit("p");
+    }
     if (!sh.live.empty() && r.coin(1, 3)) {  // the first and the last stored global index and their outer neighbours
       long gf = sh.live.begin()->first.first, gl = sh.live.rbegin()->first.first;
       emit((r.coin() ? "x " : "t ") + std::to_string(gf));
